@@ -12,6 +12,7 @@ NOT_DECIDED = [
     "behaviour after a failed write (the property does not constrain it)",
 ]
 CONFIG_SENSITIVE = False
+DESUGAR = True
 
 W = "<summary::SummaryStream as std::io::Write>::write"
 SEP = "\n\n"
@@ -132,7 +133,8 @@ def run(ctx):
             er = unwrap_err(p.end[1])
             ok = is_call(er, "io::Error::new", "std::io::Error::new") and agg_variant(call_args(er)[0]) and agg_variant(call_args(er)[0])[1] == "InvalidData"
             ctx.check(ok, "D4-INVALIDDATA", W, "err-path-%d" % i, "Err(io::Error::new(InvalidData, ..))", "an error path does not return io::Error of kind InvalidData", fn_span(body), nontrivial=False)
-        fs = [p for p in errs if any(c.term[0] == "discr" and is_call(c.term[1], "Summary as std::str::FromStr>::from_str") for c in p.conds())]
+        # ... decided by the result of Summary::from_str (matched directly, through `?`, or through map_err(..)?)
+        fs = [p for p in errs if any(c.term[0] == "discr" and mentions(c.term[1], lambda s: is_call(s, "Summary as std::str::FromStr>::from_str")) for c in p.conds())]
         ctx.check(bool(fs), "D4-MALFORMED", W, "parse-error-surfaces", "a Summary::from_str failure returns Err", "a malformed entry does not make write() fail", fn_span(body))
         errprop(ctx, W, paths, body, rule="D4-ERRPROP", no_effects_after_error=("Vec::push",), floor=1, skip=("Vec::split_off", "from_utf8"))
         backs = [p for p in paths if p.end[0] == "back"]
